@@ -136,7 +136,58 @@ def check(ctx):
                 'impl': items[-1][3][-24:], 'model_agrees': ans[-1]})
 
 
+def platform_rename(ctx):
+    """The protocol models take the final rename as ONE atomic step that replaces the destination.
+    s3transfer.compat selects a remove-then-rename strategy for Windows only; on every other
+    platform name the destination must never be removed first (a crash in between would lose
+    the previous content).  The module is re-imported under several platform names."""
+    import importlib
+    import sys
+    compat = importlib.import_module('s3transfer.compat')
+    saved = sys.platform
+    d = tempfile.mkdtemp(prefix='verif-c06plat-')
+    try:
+        for plat in ('linux', 'darwin', 'cygwin', 'freebsd14', 'sunos5', 'aix'):
+            sys.platform = plat
+            try:
+                mod = importlib.reload(compat)
+            except Exception as e:      # noqa
+                ctx.notes.append(f'platform check: s3transfer.compat does not import under sys.platform={plat!r}: {e!r}')
+                continue
+            src, dst = os.path.join(d, 'src'), os.path.join(d, 'dst')
+            open(src, 'wb').write(b'NEW')
+            open(dst, 'wb').write(b'OLD')
+            removed = []
+            real_remove = os.remove
+
+            def spy(path, *a, **k):
+                removed.append(os.path.basename(str(path)))
+                return real_remove(path, *a, **k)
+            os.remove = spy
+            try:
+                mod.rename_file(src, dst)
+            finally:
+                os.remove = real_remove
+            ctx.count('platform-rename', 1, nontrivial_key=plat, platform=plat)
+            if 'dst' in removed:
+                ctx.report(f'platform-rename:{plat}',
+                           f's3transfer.compat.rename_file under sys.platform={plat!r} REMOVES the destination before renaming the '
+                           'temporary file onto it: between the two steps the destination does not exist (not an atomic publish)',
+                           {'kind': 'input', 'component': 'platform-rename', 'case': {'platform': plat}})
+            elif open(dst, 'rb').read() != b'NEW':
+                ctx.report(f'platform-rename:content:{plat}', f'rename_file under sys.platform={plat!r} did not publish the new content',
+                           {'kind': 'input', 'component': 'platform-rename', 'case': {'platform': plat}})
+    finally:
+        sys.platform = saved
+        importlib.reload(compat)
+        shutil.rmtree(d, ignore_errors=True)
+
+
 def replay(ctx, data):
+    if data.get('component') == 'platform-rename':
+        n0 = len(ctx.violations)
+        platform_rename(ctx)
+        return len(ctx.violations) > n0
     c = data.get('case')
     L, r = run_impl(c)
     why = oracle(c, L, r)
